@@ -40,3 +40,35 @@ Definition safe_class (ifs : iftab) (h : list iter) : bool :=
 
 Definition is_alive_fail (f : BrowserSpec.fail) : bool :=
   match f with BrowserSpec.F05_alive _ _ _ _ => true | _ => false end.
+
+(* C04-found-missing-after-ptr-refresh (found in round 5): a browse is started while the cache
+   holds a PTR record of that type with TTL > 1 that is in its last second (it is not reported
+   by query_cache_for_service; if it is refreshed afterwards it is no new record, so ServiceFound
+   never comes).  Evaluated on the spec cache at the moment of the browse call. *)
+Definition soon_ptr_at_browse (c : cache) (now : N) (ty : bytes) : bool :=
+  match bm_get ty (c_ptr c) with
+  | Some b => existsb (fun p => expires_soon p now && (1 <? e_ttl p)) b
+  | None => false
+  end.
+
+Fixpoint calls_browse_expiring (now : N) (sp : spec) (calls : list call) : bool :=
+  match calls with
+  | [] => false
+  | cl :: t =>
+    (match cl with CBrowse ty _ => soon_ptr_at_browse (sp_c sp) now ty | _ => false end)
+    || calls_browse_expiring now (spec_call now sp cl) t
+  end.
+
+Fixpoint known_browse_expiring_from (ifs : iftab) (sp : spec) (h : list iter) : bool :=
+  match h with
+  | [] => false
+  | it :: t =>
+    let '(ds, _, sp3) := iter_snaps ifs sp it in
+    calls_browse_expiring (i_now it) (last ds sp) (i_calls it) || known_browse_expiring_from ifs sp3 t
+  end.
+
+Definition known_browse_expiring (ifs : iftab) (h : list iter) : bool :=
+  known_browse_expiring_from ifs init_spec h.
+
+Definition is_order_fail (f : BrowserSpec.fail) : bool :=
+  match f with BrowserSpec.F04_order _ _ _ => true | _ => false end.
